@@ -1029,12 +1029,125 @@ def emit_cmp(C):
     return out
 
 # ----------------------------------------------------------------------------
+# serde impls (C17): the four bodies as small ASTs; closed world of serde impls
+# ----------------------------------------------------------------------------
+def ser_body(fn):
+    """(sbody text, code for the case prefix)"""
+    b = fn_body(fn)
+    if b[1] or b[2] is None: return 'SOther', 0
+    def classify(e):
+        e = strip(e)
+        if e[0] == 'mcall' and e[2] == 'serialize' and len(e[4]) == 1 and is_path(strip(e[4][0]), 'serializer'):
+            r = strip(e[1]); n = 0
+            while True:
+                if r[0] == 'unary' and r[1] == '*': n += 1; r = strip(r[2])
+                elif r[0] == 'unary' and r[1] == '&' and n == 0: r = strip(r[2])      # (&**self).serialize(..): auto-ref'd anyway
+                elif r[0] == 'ref' and n == 0: r = strip(r[-1])
+                else: break
+            if is_path(r, 'self') and 1 <= n <= 9: return 'SDelegate %d' % n, n
+            return None
+        if e[0] == 'call' and (call_path(e) or '').endswith('::serialize') and len(e[2]) == 2 and is_path(strip(e[2][1]), 'serializer'):
+            # T::serialize(&**self, serializer)
+            r = strip(e[2][0]); n = 0
+            if r[0] in ('ref',) : r = strip(r[-1])
+            elif r[0] == 'unary' and r[1] == '&': r = strip(r[2])
+            else: return None
+            while r[0] == 'unary' and r[1] == '*': n += 1; r = strip(r[2])
+            if is_path(r, 'self') and 1 <= n <= 9 and (call_path(e) or '').split('::')[0] in ('T', 'Serialize'): return 'SDelegate %d' % n, n
+            return None
+        if e[0] == 'mcall' and e[2] == 'serialize_newtype_struct' and is_path(strip(e[1]), 'serializer') and len(e[4]) == 2:
+            inner = strip(e[4][1]); n = 0
+            if inner[0] == 'unary' and inner[1] == '&': inner = strip(inner[2])
+            elif inner[0] == 'ref': inner = strip(inner[-1])
+            while inner[0] == 'unary' and inner[1] == '*': n += 1; inner = strip(inner[2])
+            if is_path(inner, 'self') and n == 2: return 'SNewtype 99 (SDelegate 2)', 109
+        return None
+    try:
+        r = classify(b[2])
+    except (IndexError, TypeError):
+        r = None
+    return r if r else ('SOther', 0)
+
+def de_body(fn):
+    b = fn_body(fn)
+    if b[1] or b[2] is None: return 'DOther', 0
+    CT = {'Arc::new': ('CArcNew', 0), 'UniqueArc::new': ('CUniqueNew', 1), 'Self::new': None}
+    def ctor_of(e, self_head):
+        e = strip(e)
+        if e[0] == 'path':
+            p = '::'.join(e[1])
+            if p == 'Self::new': p = self_head + '::new'
+            if p in ('Arc::new', 'UniqueArc::new'): return CT[p]
+        if e[0] == 'closure':
+            return None
+        return ('COtherCtor', 9)
+    def is_tdeser(e):
+        e = strip(e)
+        return e[0] == 'call' and (call_path(e) or '') in ('T::deserialize', 'Deserialize::deserialize', '<T as Deserialize>::deserialize') and len(e[2]) == 1 and is_path(strip(e[2][0]), 'deserializer')
+    def classify(e, self_head):
+        e = strip(e)
+        if e[0] == 'mcall' and e[2] == 'map' and len(e[4]) == 1 and is_tdeser(e[1]):
+            c = ctor_of(e[4][0], self_head)
+            if c is None: return None
+            return ('DMap %s' % c[0], {0: 1, 1: 2, 9: 5}[c[1]])
+        if e[0] == 'call' and (call_path(e) or '') == 'Ok' and len(e[2]) == 1:
+            inner = strip(e[2][0])
+            if inner[0] == 'call' and len(inner[2]) == 1:
+                a = strip(inner[2][0])
+                if a[0] == 'try' and is_tdeser(a[1]):
+                    c = ctor_of(inner[1], self_head)
+                    if c is None: return None
+                    return ('DTry %s' % c[0], {0: 3, 1: 4, 9: 5}[c[1]])
+        return None
+    return classify
+
+def extract_serde(src, facts, notes):
+    S = dict(impls=[], ser_arc=('SOther', 0), ser_uniq=('SOther', 0), de_arc=('DOther', 0), de_uniq=('DOther', 0))
+    for f, items in src.items.items():
+        for it in walk_items(items):
+            if it.kind != 'impl' or it.cfg_test(): continue
+            info = src.impl_info(it)
+            if not info or info['trait'] is None: continue
+            tr = type_text(info['trait']).replace(' ', ''); st = type_text(info['self_ty']).replace(' ', '')
+            trn = tr.split('<')[0].split('::')[-1]
+            if trn not in ('Serialize', 'Deserialize'): continue
+            head = st.split('<')[0]
+            S['impls'].append([f, trn, st])
+            fns = [c for c in it.children if c.kind == 'fn']
+            if len(fns) != 1 or st not in ('Arc<T>', 'UniqueArc<T>'): continue
+            try:
+                if trn == 'Serialize' and fns[0].name == 'serialize':
+                    S['ser_arc' if head == 'Arc' else 'ser_uniq'] = ser_body(fns[0])
+                elif trn == 'Deserialize' and fns[0].name == 'deserialize':
+                    b = fn_body(fns[0])
+                    r = None
+                    if not b[1] and b[2] is not None:
+                        r = de_body(fns[0])(b[2], head) if callable(de_body(fns[0])) else None
+                    S['de_arc' if head == 'Arc' else 'de_uniq'] = r if r else ('DOther', 0)
+            except (ParseError, IndexError, TypeError, KeyError) as ex:
+                notes.append('serde: %s %s for %s: %s' % (f, trn, st, ex))
+    S['impls'].sort()
+    S['closed'] = S['impls'] == [['arc.rs', 'Deserialize', 'Arc<T>'], ['arc.rs', 'Serialize', 'Arc<T>'], ['unique_arc.rs', 'Deserialize', 'UniqueArc<T>'], ['unique_arc.rs', 'Serialize', 'UniqueArc<T>']]
+    S['codes'] = [S['ser_arc'][1], S['ser_uniq'][1], S['de_arc'][1], S['de_uniq'][1]]
+    facts['serde'] = S
+
+def emit_serde(S):
+    out = ['(* --- serde impls --- *)']
+    out.append('Definition ser_arc_body : sbody := %s.' % S['ser_arc'][0])
+    out.append('Definition ser_uniq_body : sbody := %s.' % S['ser_uniq'][0])
+    out.append('Definition de_arc_body : dbody := %s.' % S['de_arc'][0])
+    out.append('Definition de_uniq_body : dbody := %s.' % S['de_uniq'][0])
+    out.append('Definition serde_impls_closed : bool := %s.' % ('true' if S['closed'] else 'false'))
+    out.append('Definition serde_body_codes : list N := [%s].' % '; '.join(str(c) for c in S['codes']))
+    return out
+
+# ----------------------------------------------------------------------------
 # driver
 # ----------------------------------------------------------------------------
 HEADER = '''(* GENERATED by tools/extract.py from %s -- do not edit.
    source digest: %s *)
 From Coq Require Import NArith List String.
-From TV Require Import Layout SrcFacts Bits Conc Guard Cmp.
+From TV Require Import Layout SrcFacts Bits Conc Guard Cmp Serde.
 Import ListNotations.
 Open Scope N_scope.
 '''
@@ -1048,6 +1161,7 @@ def run(srcdir):
     extract_protocol(src, facts, notes)
     extract_pointers(src, facts, notes)
     extract_cmp(src, facts, notes)
+    extract_serde(src, facts, notes)
     facts['notes'] = notes
     h = hashlib.sha256()
     for f in sorted(os.listdir(srcdir)):
@@ -1061,6 +1175,7 @@ def run(srcdir):
     lines += emit_protocol(facts['protocol']); lines.append('')
     lines += emit_pointers(facts['pointers']); lines.append('')
     lines += emit_cmp(facts['cmp']); lines.append('')
+    lines += emit_serde(facts['serde']); lines.append('')
     return facts, '\n'.join(lines) + '\n'
 
 def jsonable(x):
